@@ -422,3 +422,103 @@ func errResultOf(call *ssa.Call) (ssa.Value, bool) {
 	}
 	return nil, true // has an error result, but it is never extracted
 }
+
+func namedTypeName(t types.Type) string {
+	if n := namedOf(t); n != nil {
+		return n.Obj().Name()
+	}
+	return ""
+}
+
+// adapterOf finds the function literal that outer hands as the last argument to its call of callee (a b-tree
+// iterator), whether the literal is written in place or produced by a freshly extracted helper (`passRecord(cb)`).
+// The returned Termer names the literal's free variables after the variables of outer they are bound to, so that
+// rules can relate them to outer's parameters whatever the helper calls them.
+func adapterOf(p *Program, outer *ssa.Function, callee string) (*ssa.Function, *Termer) {
+	for _, cs := range callsIn(outer) {
+		if calleeName(p, cs) != callee || len(cs.Common().Args) == 0 {
+			continue
+		}
+		arg := cs.Common().Args[len(cs.Common().Args)-1]
+		for {
+			if ct, ok := arg.(*ssa.ChangeType); ok {
+				arg = ct.X
+			} else if mi, ok := arg.(*ssa.MakeInterface); ok {
+				arg = mi.X
+			} else {
+				break
+			}
+		}
+		var mc *ssa.MakeClosure
+		bind := func(v ssa.Value) ssa.Value { return v }
+		switch x := arg.(type) {
+		case *ssa.MakeClosure:
+			mc = x
+		case *ssa.Function:
+			return x, &Termer{P: p}
+		case *ssa.Call:
+			g := x.Common().StaticCallee()
+			if g == nil || inlinable == nil || !inlinable(g) {
+				return nil, nil
+			}
+			for _, b := range g.Blocks {
+				if r, ok := b.Instrs[len(b.Instrs)-1].(*ssa.Return); ok && len(r.Results) == 1 {
+					rv := r.Results[0]
+					if ct, ok := rv.(*ssa.ChangeType); ok {
+						rv = ct.X
+					}
+					m, ok := rv.(*ssa.MakeClosure)
+					if !ok || (mc != nil && mc.Fn != m.Fn) {
+						return nil, nil
+					}
+					mc = m
+				}
+			}
+			call := x
+			bind = func(v ssa.Value) ssa.Value {
+				if a, ok := v.(*ssa.Alloc); ok {
+					if st := singleStore(a); st != nil {
+						v = st.Val
+					}
+				}
+				v = resolveCell(v)
+				if prm, ok := v.(*ssa.Parameter); ok {
+					for k, gp := range g.Params {
+						if gp == prm && k < len(call.Common().Args) {
+							return call.Common().Args[k]
+						}
+					}
+				}
+				return v
+			}
+		}
+		if mc == nil {
+			return nil, nil
+		}
+		fn := mc.Fn.(*ssa.Function)
+		names := map[*ssa.FreeVar]string{}
+		base := &Termer{P: p}
+		for i, fv := range fn.FreeVars {
+			if i >= len(mc.Bindings) {
+				break
+			}
+			b := bind(mc.Bindings[i])
+			s := base.Term(resolveCell(b), nil)
+			for _, pre := range []string{"p:", "local:", "fv:"} {
+				if strings.HasPrefix(s, pre) {
+					s = s[len(pre):]
+				}
+			}
+			names[fv] = "fv:" + s
+		}
+		return fn, &Termer{P: p, Custom: func(v ssa.Value, ps *pathState) (string, bool) {
+			if fv, ok := v.(*ssa.FreeVar); ok {
+				if s, ok := names[fv]; ok {
+					return s, true
+				}
+			}
+			return "", false
+		}}
+	}
+	return nil, nil
+}
